@@ -56,6 +56,20 @@ def rand_index(sr, rng, sym, dual=None, maxc=3, maxd=3, mind=1, p_single=0.12, m
     return sr.BlockIndex(cm, dual=(rng.random() < 0.5) if dual is None else dual)
 
 
+def union_refs(sr, a, b, axa, axb):
+    """Reference layouts for embedding two operands whose contracted legs list different
+    charges: each pair is embedded in the union of the two tables. -> (ref_a, ref_b)"""
+    ra, rb = list(a.indices), list(b.indices)
+    for i, j in zip(axa, axb):
+        cm = dict(a.indices[i].chargemap)
+        for c, d in b.indices[j].chargemap.items():
+            assert cm.setdefault(c, d) == d
+        cm = dict(sorted(cm.items()))
+        ra[i] = sr.BlockIndex(cm, dual=a.indices[i].dual)
+        rb[j] = sr.BlockIndex(cm, dual=b.indices[j].dual)
+    return ra, rb
+
+
 def conj_index(sr, ix):
     """Conjugate of an unfused index built by the harness (fused: use the library's)."""
     if ix.subinfo is None:
@@ -318,6 +332,23 @@ def contractible_pair(sr, rng, sym, fermionic, na=None, nb=None, ncon=None, maxn
     for x_, y_ in zip(axes_a, axes_b):
         ib[y_] = conj_index(sr, ia[x_])
     ib = [rand_index(sr, rng, sym, maxc=maxc, maxd=maxd, **ikw) if v is None else v for v in ib]
+    p_ragged = kw.pop("p_ragged", 0.0)
+    if p_ragged:
+        # the two ends of a contracted leg need not list the same charges (only agree on the
+        # sizes of those they share): drop a charge on one end, add an unshared one on an end
+        for x_, y_ in zip(axes_a, axes_b):
+            if rng.random() >= p_ragged:
+                continue
+            ca, cb = dict(ia[x_].chargemap), dict(ib[y_].chargemap)
+            tgt = ca if rng.random() < 0.5 else cb
+            if len(tgt) >= 2 and rng.random() < 0.7:
+                del tgt[rng.choice(sorted(tgt))]
+            if rng.random() < 0.4:
+                free = [c for c in POOL[sym] if c not in ca and c not in cb]
+                if free:
+                    (ca if rng.random() < 0.5 else cb)[rng.choice(free)] = rng.randint(1, maxd)
+            ia[x_] = sr.BlockIndex(dict(sorted(ca.items())), dual=ia[x_].dual)
+            ib[y_] = sr.BlockIndex(dict(sorted(cb.items())), dual=ib[y_].dual)
     values = values or Values(rng)
     kind = kw.pop("kind", None)
     if kind is None:
